@@ -166,7 +166,9 @@ def oracle(rows):
                         fail("delete_unconfirmed scan left unconfirmed output %s" % ((o["acct"], o["child"]),))
                 # a pending transaction that was dropped holds nothing any more
                 dropped = {(t["parent"], t["id"]) for t in after["txs"] if t["type"] in (3, 4)}
-                was = {(t["parent"], t["id"]): t["type"] for t in r["before"]["txs"]}
+                # (pending = an unconfirmed sent entry; an injected divergence can make a record of a
+                # CONFIRMED send look Unconfirmed / Locked: not a pending transaction)
+                was = {(t["parent"], t["id"]): t["type"] for t in r["before"]["txs"] if not t["confirmed"]}
                 for o in after["outputs"]:
                     if o["status"] == 2 and (o["root"], o["tx"]) in dropped and was.get((o["root"], o["tx"])) == 2:
                         below = r.get("start") and o["height"] < r["start"]
